@@ -114,8 +114,9 @@ def shard_fn(shard, nshards, seed, tier, exe, ndocs, nenum):
                 err_at, eno = -1, 0
             cmds.append("FDR %d %s %d %d x%s" % (depth, caps, err_at, eno, text.hex()))
             plan.append(("r", caps, err_at, eno, depth))
-        if rng.random() < 0.05:
-            cmds.append("FDF x%s 0" % b"/nonexistent/dir/file.json".hex())
+        if rng.random() < 0.1:
+            # (also with a path long enough that path + message exceed any fixed message buffer: there must still be a message)
+            cmds.append("FDF x%s 0" % rng.choice([b"/nonexistent/dir/file.json", b"/nonexistent/" + b"d" * rng.choice([150, 190, 240, 400, 1000]) + b"/file.json"]).hex())
             plan.append(("nofile",))
         add(cmds, plan)
     # ---- fault enumeration: one injected error at EVERY call index of small transfers ----
